@@ -521,7 +521,7 @@ func outputFor(in *goproInput, first string) string {
 
 func addExisting(r *Rng, in *goproInput) {
 	for _, n := range in.Listing {
-		if strings.HasSuffix(n, "/") || strings.Contains(n, "/") {
+		if _, mode := entryName(n); mode != 0 || strings.Contains(n, "/") {
 			continue
 		}
 		if r.Chance(0.15) {
